@@ -2406,6 +2406,8 @@ pub fn go_file(
     }));
     // Run a simple DCE pass to drop unused local variables for Go
     let file = goast::File { toplevels: all };
+    #[cfg(goml_verif)]
+    crate::verif_hooks::emit(|| serde_json::json!({"ev": "pre_dce", "go": file.to_pretty(&goenv, 120)}));
     (crate::go::dce::eliminate_dead_vars(file), goenv)
 }
 
